@@ -19,7 +19,9 @@ where
 {
     fn write_xml(&self, writer: &mut W) -> WriterResult<()> {
         for (operation_name, operation) in &self.operations {
-            writeln!(writer, "\n/* {operation_name} */\n")?;
+            // the name is schema text: it must not be able to end (or nest) the comment
+            let comment = operation_name.replace("*/", "* /").replace("/*", "/ *");
+            writeln!(writer, "\n/* {comment} */\n")?;
 
             // input
             let operation_name = xml_name_to_rust_name(operation_name);
